@@ -12,8 +12,9 @@ lean/Operon/Props/C06.lean that reproduce the tables with the Lean model (`decid
                case / whitespace variants, concatenations, empty, unrelated words) x two payloads, and six action types
                x every payload shape of PAYLOADS (no dict, dict without "confidence", numeric as float / int / bool /
                numeric string / padded string, out of range, negative, infinite, huge, NaN, non-numeric, None, list)
-               x three (weight, reliability) pairs, and a
-               raising agent -> (vote type, confidence, weight) of the one vote in `QuorumResult.votes`
+               + payloads that cannot be rendered (str / bool / len raise, a dict with a valid confidence and an
+               unprintable value) x three (weight, reliability) pairs, and an agent that gives no usable answer
+               (raises, returns None / a string / a bare object / a protein whose payload cannot be read) -> (vote type, confidence, weight) of the one vote in `QuorumResult.votes`
   countTable   the four counting strategies + EmergencyQuorum x custom thresholds (none, 0, shares, counts, fractional
                counts) x min_voters 0, 1, 3 x EVERY (permit, block, abstain/failed, defer) profile of 0..7 voters (the
                property's quantifier bound), evaluated on a plain ballot (weight 1, no confidence) and - for
@@ -98,8 +99,73 @@ PAYLOADS = [
     (10, F(0), lambda: {"confidence": ""}),
     (11, F(0), lambda: {"confidence": None}),
     (12, F(0), lambda: {"confidence": [1]}),
+    (12, F(0), lambda: _NoLookup(confidence=0.5)),        # the key lookup itself raises
+    # code 16 / 17: the payload cannot be rendered into the vote's reasoning text (a failed voter, ONE ballot)
+    (16, F(0), lambda: _Unprintable()),                   # str() / repr() raise
+    (16, F(0), lambda: _NoTruth()),                       # bool() raises
+    (16, F(0), lambda: _NoLen()),                         # len() raises (bool() falls back to it)
+    (16, F(0), lambda: ["note", _Unprintable()]),
+    (17, F(1, 2), lambda: {"confidence": 0.5, "detail": _Unprintable()}),   # a valid confidence next to such a value
+    (17, F(1), lambda: {"confidence": "1", _Unprintable(): 0}),
 ]
-RAISES_CODE = 99                                          # the agent's `express` raises
+RAISES_CODE = 99                                          # the agent's `express` raises / returns no usable answer
+# how the agent fails to answer (value column of the RAISES_CODE rows, in sixteenths)
+NO_ANSWER = [("raise", F(0)), ("none", F(1, 16)), ("string", F(2, 16)), ("object", F(3, 16)), ("broken-payload", F(4, 16))]
+
+
+class _Unprintable:
+    def __str__(self):
+        raise ValueError("payload cannot be rendered")
+    __repr__ = __str__
+
+
+class _NoTruth:
+    def __bool__(self):
+        raise RuntimeError("payload has no truth value")
+
+
+class _NoLen:
+    def __len__(self):
+        raise OverflowError("payload has no length")
+
+
+class _NoLookup(dict):
+    def __contains__(self, key):
+        raise KeyError(key)
+
+
+class _BrokenProtein:
+    action_type = "PERMIT"
+
+    @property
+    def payload(self):
+        raise RuntimeError("payload unavailable")
+
+
+class _FloatSub(float):
+    pass
+
+
+class _IntSub(int):
+    pass
+
+
+def carriers_of(custom):
+    """the other legal numeric types that can carry the threshold exactly: (label, object) - float is the default"""
+    from decimal import Decimal
+    out = [("Fraction", F(custom))]
+    d = custom.denominator
+    for p in (2, 5):
+        while d % p == 0:
+            d //= p
+    if d == 1:
+        out.append(("Decimal", Decimal(custom.numerator) / Decimal(custom.denominator)))
+    out.append(("float subclass", _FloatSub(float(custom))))
+    if custom.denominator == 1:
+        out += [("int", int(custom)), ("int subclass", _IntSub(int(custom)))]
+        if custom in (0, 1):
+            out.append(("bool", bool(custom)))
+    return out
 CLASS_PROFILES = [(F(2), F(1, 2)), (F(1), F(1)), (F(1, 2), F(0))]
 CLASS_PAYLOAD_ACTIONS = ["PERMIT", "EXECUTE", "BLOCK", "DEFER", "", "UNKNOWN"]
 
@@ -171,6 +237,14 @@ class Stub:
     def express(self, signal):
         from operon_ai.core.types import ActionProtein
         if self.fail:
+            if self.fail == "none":
+                return None
+            if self.fail == "string":
+                return "PERMIT"
+            if self.fail == "object":
+                return object()
+            if self.fail == "broken-payload":
+                return _BrokenProtein()
             raise RuntimeError("voter failed")
         return ActionProtein(self.action, self.payload() if callable(self.payload) else self.payload, 1.0)
 
@@ -182,13 +256,14 @@ class Evaluator:
         self.ATP = ATP_Store
         self.cache = {}
 
-    def quorum(self, code, custom, mv, n):
-        """a quorum object of the coded configuration with n stubbed members (re-used between ballots of one size)"""
-        key = (code, custom, mv, n)
+    def quorum(self, code, custom, mv, n, carrier=None):
+        """a quorum object of the coded configuration with n stubbed members (re-used between ballots of one size);
+        `carrier`: (label, object) - the threshold handed over as that object instead of a float"""
+        key = (code, custom, mv, n, carrier and carrier[0])
         q = self.cache.get(key)
         if q is None:
             m = self.m
-            cu = None if custom is None else float(custom)
+            cu = None if custom is None else float(custom) if carrier is None else carrier[1]
             with contextlib.redirect_stdout(io.StringIO()):
                 budget = self.ATP(budget=1000, silent=True)
                 if code == EMERGENCY_DEFAULT:
@@ -312,8 +387,9 @@ def build_class_table(ev):
         for (pc, pv, build) in PAYLOADS:
             for (w, r) in CLASS_PROFILES:
                 observe(a, pc, pv, build, w, r)
-    for (w, r) in CLASS_PROFILES:
-        observe("PERMIT", RAISES_CODE, F(0), None, w, r, fail=True)
+    for (how, val) in NO_ANSWER:
+        for (w, r) in CLASS_PROFILES:
+            observe("PERMIT", RAISES_CODE, val, None, w, r, fail=how)
     assert m is not None
     return rows
 
@@ -330,7 +406,18 @@ def build_count_table(ev):
             d1 = ev.digit(q, s1)
             # the second representative of the profile (the min_voters gate sits in front of every strategy alike:
             # it is exercised with min_voters = 1 and for the emergency quorum)
-            digits.append(d1 if mv != 1 or d1 == ev.digit(q, s2) else 9)
+            if mv == 1 and d1 != ev.digit(q, s2):
+                d1 = 9
+            digits.append(d1)
+        # the same threshold carried by the other legal numeric types (Fraction always, one of Decimal / int / bool /
+        # float subclass / int subclass in turn) must give the same outcome.  Ratio strategies: dyadic thresholds only (an
+        # exact non-dyadic threshold is compared exactly with the ROUNDED ratio: ties are decided by the rounding)
+        if custom is not None and mv == 1 and (code in (6, EMERGENCY_CUSTOM) or not (custom.denominator & (custom.denominator - 1))):
+            cs = carriers_of(custom)
+            for carrier in [cs[0]] + ([cs[1 + len(rows) % (len(cs) - 1)]] if len(cs) > 1 else []):
+                for i, (n, s1, _s2) in enumerate(profs):
+                    if digits[i] != ev.digit(ev.quorum(code, custom, mv, n, carrier), s1):
+                        digits[i] = 9
         rows.append(((code, custom, mv), pack(digits)))
     return rows
 
